@@ -246,6 +246,8 @@ class Variable(_Attrs):
         if pos:
             out = out.reshape([len(p) for p, drop in pos if not drop])
         out = np.array(out, dtype=d["_npdtype"], copy=True)
+        if d["dtype"] is str and pos and out.ndim == 0:
+            return str(out.item())      # netCDF4 hands out a Python str for ONE ELEMENT of a variable-length string variable
         return out
 
     def __setitem__(self, key, value):
